@@ -191,6 +191,12 @@ def _run_check(cid, tier, spec, workdir, tmp, t_start):
 
     def launch(i):
         left = max(5, int(deadline - (time.time() - t0)))
+        # with many more shards than cores, a per-shard budget keeps the exploration fair: every
+        # work unit gets the same time instead of the first ones running to completion and the
+        # last ones not at all
+        if tier == "thorough" and shards > 4 * parallel:
+            fair = (deadline - (time.time() - t0)) * parallel / float(len(pending) + 1)
+            left = min(left, max(10, int(fair * 1.5)))
         env = dict(os.environ)
         env.update({
             "VERIF_TIER": tier, "VERIF_SHARD": "%d/%d" % (i, shards), "VERIF_SEED": str(seed),
